@@ -120,6 +120,33 @@ def main():
     a, b = lc.run_both(h, m, cases)
     vf.diff_cases(chk, "loop core = Model/LoopCore.v", cases, a, b, monitor)
     chk.sample({"case": cases[len(corpus)], "impl": a[len(corpus)] if len(a) > len(corpus) else None})
+    # uv_close() with a NULL callback (monitor only: the model's close always has a callback): the same scripts with
+    # some closes turned into NULL-callback closes and more uv_loop_close attempts; the harness learns that such a
+    # close is done from libuv's CLOSED flag, the liveness / uv_loop_close rules are those of monitor().
+    def nullcb_case(rng):
+        c = lc.gen_case(rng, "mixed")
+        head, ops, behs = c.split(" ; ", 2)
+        def tweak(tokens):
+            out = []
+            for t in tokens.split():
+                if t[0] == "C" and rng.random() < 0.6:
+                    t = "K" + t[1:]
+                out.append(t)
+                if t[0] in "CK" and rng.random() < 0.5:
+                    out += ["O", "Z"]          # uv_loop_close while the close is still pending
+            return " ".join(out)
+        return " ; ".join([head, tweak(ops), " | ".join(tweak(b) for b in behs.split(" | "))])
+    ncases = [nullcb_case(chk.rng) for _ in range(20000 if chk.tier == "thorough" else 600)]
+    na, nrc, nerr = vf.run_lines([h], ncases, shards=8, timeout=300)
+    nbad = 0
+    for c, l in zip(ncases, na):
+        chk.count("NULL-callback closes (monitor)", c + "=>" + l)
+        v = monitor(c, lc.merge_polls(l)) if not l.endswith(("!timeout", "!notrun")) else "the implementation hangs on this case"
+        if v and not v.startswith("KNOWN:") and nbad < 3:
+            nbad += 1
+            chk.violation("loop core, closes with a NULL callback: trace violates the property: %s" % v,
+                          {"kind": "monitor", "case": c, "impl": l}, found_input=True)
+    chk.cov["null_callback_close_cases"] = len(ncases)
     # all handle kinds: the liveness predicate on the C02 lifecycle harness's observations (monitor only)
     try:
         sys.path.insert(0, os.path.dirname(os.path.abspath(__file__)))
